@@ -183,6 +183,17 @@ def make_cases(ctx):
                     yield "psk-%s-%d-%s-%s" % (h, with_cert, "+".join(cm),
                                                "+".join(sm)), dict(
                         kind="pskpair", hash=h, cert=with_cert, cm=cm, sm=sm)
+    # EC point formats: every valid list on either side (uncompressed is
+    # mandatory), ECDHE pinned, below TLS 1.3 where the extension matters
+    from tlslite.constants import ECPointFormat as PF
+    pf_lists = [[PF.uncompressed],
+                [PF.uncompressed, PF.ansiX962_compressed_prime],
+                [PF.ansiX962_compressed_prime, PF.uncompressed]]
+    for ci, cl in enumerate(pf_lists):
+        for si, sl in enumerate(pf_lists):
+            for curve in ("secp256r1", "secp384r1", "brainpoolP256r1"):
+                yield "pf-%d-%d-%s" % (ci, si, curve), dict(
+                    kind="pfpair", cl=cl, sl=sl, curve=curve)
     for side in ("server", "client"):
         for dim, values in dims:
             for v in values:
@@ -680,8 +691,41 @@ def run_pskpair(ctx, cid, P):
             P["hash"], suites.TABLE[p.c.session.cipherSuite].name))
 
 
+def run_pfpair(ctx, cid, P):
+    kw = dict(minVersion=(3, 1), maxVersion=(3, 3),
+              keyExchangeNames=["ecdhe_rsa"], eccCurves=[P["curve"]],
+              defaultCurve=P["curve"], keyShares=[])
+    cs = policy.build(dict(kw, ec_point_formats=list(P["cl"])))
+    ss = policy.build(dict(kw, ec_point_formats=list(P["sl"])))
+    try:
+        cs.validate()
+        ss.validate()
+    except ValueError:
+        ctx.count("directed_invalid")
+        return
+    p = Pair()
+    tc, ts = p.handshake(Flavor("cert", skey="rsa", cset=cs, sset=ss))
+    ctx.ev()
+    ctx.count("pairs")
+    ctx.count("point_format_pairs")
+    W = {"case": cid, "client_formats": P["cl"], "server_formats": P["sl"],
+         "curve": P["curve"], "outcome": [outcome(tc), outcome(ts)]}
+    if tc.status != "done" or ts.status != "done":
+        e = ts.exc if ts.exc is not None else tc.exc
+        ctx.violation({"clause": "compatible_but_failed",
+                       "mech": "ec_point_formats", "ver": "TLS1.2",
+                       "keytype": "rsa", "server": str(outcome(ts)),
+                       "client": str(outcome(tc)), "msg": str(e)[:60]}, W,
+                      "both sides allow the uncompressed format: %r / %r" % (
+                          tc.exc, ts.exc))
+    else:
+        ctx.count("compatible_connected")
+
+
 def run_pair(ctx, cid, P):
     rng = ctx.rng
+    if P["kind"] == "pfpair":
+        return run_pfpair(ctx, cid, P)
     if P["kind"] == "pskpair":
         return run_pskpair(ctx, cid, P)
     if P["kind"] == "dpair":
